@@ -265,13 +265,31 @@ def gmf_recipes(rng, count):
             # the opposite face listed on its own, cheaper or dearer
             d = rng.choice(dirs)
             records.insert(rng.randrange(len(records) + 1), [-d[0], -d[1], -d[2], rng.randint(32, 64)])
+        recip = [[1, 0, 0], [0, 1, 0], [0, 0, 1]]
+        if num <= 2 and rng.random() < 0.7:
+            # an oblique cell: integer unimodular reciprocal lattice M (rows a*, b*, c*); the listed planes are q . M^-1 for
+            # Pythagorean directions q, so that the facet normals hkl . M stay in the exact domain
+            import numpy as np
+            while True:
+                M = np.eye(3, dtype=int)
+                for _ in range(rng.randint(1, 3)):
+                    i, j = rng.sample(range(3), 2)
+                    S = np.eye(3, dtype=int)
+                    S[i, j] = rng.choice([-1, 1])
+                    M = M @ S
+                if not np.array_equal(M, M.T):
+                    break
+            Minv = np.round(np.linalg.inv(M)).astype(int)
+            records = [[int(x) for x in (np.array(r[:3]) @ Minv)] + [r[3]] for r in records]
+            recip = [[int(x) for x in row] for row in M]
         exp = gmf_expand(records, rots)
-        if not all(math.isqrt(sum(x * x for x in d)) ** 2 == sum(x * x for x in d) and math.isqrt(sum(x * x for x in d)) <= MAXW for d in exp):
+        nrm = [[sum(d[i] * recip[i][j] for i in range(3)) for j in range(3)] for d in exp]
+        if not all(math.isqrt(sum(x * x for x in v)) ** 2 == sum(x * x for x in v) and 0 < math.isqrt(sum(x * x for x in v)) <= MAXW for v in nrm):
             continue
         if len(exp) > 40:
             continue
         out.append({"kind": "gmf", "Q": 32, "facets": [], "scale": pick_scale(rng),
-                    "gmf": {"number": num, "choice": ch, "records": records, "rots": rots}})
+                    "gmf": {"number": num, "choice": ch, "records": records, "rots": rots, "recip": recip}})
     return out
 
 
@@ -297,7 +315,9 @@ def drive_gmf(recipe):
     q = recipe["Q"]
     sn, sd = recipe["scale"]
     sg = SpaceGroup(g["number"], choice=g["choice"]) if g["choice"] else SpaceGroup(g["number"])
-    cr = Crystal(UnitCell.cubic(1.0), sg, AsymmetricUnit([Element["C"]], np.array([[0.1, 0.2, 0.3]])))
+    M = np.array(g.get("recip", [[1, 0, 0], [0, 1, 0], [0, 0, 1]]), dtype=float)
+    # reciprocal_lattice = inverse^T = M  =>  direct = (M^T)^-1
+    cr = Crystal(UnitCell(np.linalg.inv(M.T)), sg, AsymmetricUnit([Element["C"]], np.array([[0.1, 0.2, 0.3]])))
     hkl = np.array([r[:3] for r in g["records"]], dtype=int)
 
     def build(factor):
@@ -326,7 +346,8 @@ def drive_gmf(recipe):
 def _empty_trace(recipe):
     sn, sd = recipe["scale"]
     return {"kind": recipe["kind"], "Q": recipe["Q"], "facets": recipe.get("facets", []), "exc": "", "offgrid": False, "resid": 0,
-            "verts": [], "lists": [], "tris": [], "trifacet": [], "gmf": recipe.get("gmf", {"records": [], "rots": []}),
+            "verts": [], "lists": [], "tris": [], "trifacet": [],
+            "gmf": dict({"records": [], "rots": [], "recip": [[1, 0, 0], [0, 1, 0], [0, 0, 1]]}, **recipe.get("gmf", {})),
             "mesh": {"exc": "skipped", "verts": [], "faces": [], "vol6s": big(0)},
             "scale": {"sn": sn, "sd": sd, "exc": "skipped", "verts": [], "offgrid": False},
             "meta": {"recipe": recipe, "source": "seeded-" + recipe["kind"], "impl_call": "WulffConstruction.from_gmf_and_crystal",
@@ -343,7 +364,7 @@ def drive_facets(recipe, prebuilt=None):
     nf = len(facets)
     empty_mesh = {"exc": "skipped", "verts": [], "faces": [], "vol6s": big(0)}
     t = {"kind": recipe["kind"], "Q": q, "facets": facets, "exc": "", "offgrid": False, "resid": 0,
-         "gmf": recipe.get("gmf", {"records": [], "rots": []}),
+         "gmf": dict({"records": [], "rots": [], "recip": [[1, 0, 0], [0, 1, 0], [0, 0, 1]]}, **recipe.get("gmf", {})),
          "verts": [], "lists": [[] for _ in facets], "tris": [], "trifacet": [],
          "mesh": empty_mesh,
          "scale": {"sn": sn, "sd": sd, "exc": "skipped", "verts": [], "offgrid": False},
